@@ -32,6 +32,7 @@ pub fn drain_in_child(case: &EnumCase) -> Report {
     let stats = drive::install_stats_sink(bound);
     let mut yielded = 0u64;
     let mut extra_nones_ok = true;
+    let mut other_drains_agree = true;
     let outcome = catch(|| {
         let mut it = drive::evaluator(&cfg, &ranges, None).into_iter();
         while let Some(_sd) = it.next() {
@@ -42,6 +43,31 @@ pub fn drain_in_child(case: &EnumCase) -> Report {
         for _ in 0..3 {
             if it.next().is_some() {
                 extra_nones_ok = false;
+            }
+        }
+        // the other ways a caller drains an iterator: size_hint() between calls, collect(), count()
+        if product <= 200 {
+            // three more complete drains follow: the considered-deals bound covers all four
+            {
+                let mut st = stats.borrow_mut();
+                if st.bound > 0 {
+                    st.bound = st.bound.saturating_mul(4);
+                }
+            }
+            let mut it = drive::evaluator(&cfg, &ranges, None).into_iter();
+            let mut n = 0u64;
+            loop {
+                let _ = it.size_hint();
+                if it.next().is_none() {
+                    break;
+                }
+                n += 1;
+            }
+            let _ = it.size_hint();
+            let collected = drive::evaluator(&cfg, &ranges, None).into_iter().collect::<Vec<_>>().len() as u64;
+            let counted = drive::evaluator(&cfg, &ranges, None).into_iter().count() as u64;
+            if n != yielded || collected != yielded || counted != yielded {
+                other_drains_agree = false;
             }
         }
     });
@@ -75,6 +101,9 @@ pub fn drain_in_child(case: &EnumCase) -> Report {
     report.max("max_odometer_index_reached", st.max_player_index as u64);
     if !extra_nones_ok {
         report.count("yield_after_exhaustion", 1);
+    }
+    if !other_drains_agree {
+        report.count("collect_or_count_disagrees_with_next_loop", 1);
     }
     report
 }
@@ -137,6 +166,24 @@ pub fn cases(tier: Tier, seed: u64) -> Vec<(EnumCase, Vec<&'static str>)> {
         let ranges: Vec<Combos> = (0..n).map(|_| clustered_range(&mut rng, &cards, per, WeightMode::Family)).collect();
         v.push((EnumCase::collect(&format!("crowd-{}p", n), textured_flop(&mut rng, n), ranges), both.clone()));
     }
+    // a full table and beyond (17..23 seats: every unseen card but a few is in somebody's hand)
+    for n in [16usize, 17, 20, 23] {
+        let f = textured_flop(&mut rng, n);
+        let mut live: Vec<u8> = (0..52u8).filter(|c| !f.contains(c)).collect();
+        rng.shuffle(&mut live);
+        let ranges: Vec<Combos> = (0..n).map(|i| vec![(pid(live[2 * i], live[2 * i + 1]), 1.0)]).collect();
+        v.push((EnumCase::collect(&format!("seats-{}", n), f, ranges), both.clone()));
+    }
+    // ranges whose every combo has weight exactly 0 (still real hands: the deals exist, with probability 0)
+    for (i, size) in [1usize, 6, 300].iter().enumerate() {
+        let zero: Combos = random_range(&mut rng, *size, WeightMode::AllOne).into_iter().map(|(p, _)| (p, 0.0)).collect();
+        let other = random_range(&mut rng, 3, WeightMode::Family);
+        v.push((EnumCase::collect(&format!("all-zero-{}-alone", size), textured_flop(&mut rng, i), vec![zero.clone()]), both.clone()));
+        v.push((EnumCase::collect(&format!("all-zero-{}-first", size), textured_flop(&mut rng, i + 1), vec![zero.clone(), other.clone()]), both.clone()));
+        v.push((EnumCase::collect(&format!("all-zero-{}-last", size), textured_flop(&mut rng, i + 2), vec![other.clone(), zero.clone()]), both.clone()));
+    }
+    v.push((EnumCase::parsed("parsed-zero-weights", flop("7c4d2h"), &["QQ:0", "AKs:0.0,JJ"]), both.clone()));
+    v.push((EnumCase::parsed("parsed-underflowing-weight", flop("7c4d2h"), &["77:0.0000000000000000000000000000000000000000000001", "AA:0.0000000000000000000000000000000000000000000014"]), both.clone()));
     // the same combo for everybody: nothing is ever dealt
     v.push((EnumCase::collect("same-combo-4p", flop("2h2d2c"), vec![combos_of("AsKs"); 4]), both.clone()));
     // random lists within a deal budget
